@@ -24,8 +24,6 @@ func TestTypeErrorsFixtures(t *testing.T) {
 	src := `package main
 
 import (
-	"go/importer"
-	"strings"
 	i0_ctx "context"
 	i1_pkg "example.com/user/pkg"
 	i2_unused "example.com/unused"
@@ -44,6 +42,14 @@ func (c *G) Must() *i1_pkg.X {
 func (c *G) InCtx(ctx i0_ctx.Context) Local { var l Local; _ = i1_pkg.NewX; _ = NewLocal; return l }
 `
 	allow := func(n string) bool { return n == "Local" || n == "NewLocal" }
+	// the unused import is reported until it is pruned, as the code formatter does
+	if errs := TypeErrors(src, importer.Default(), allow); len(errs) != 1 || !strings.Contains(errs[0], "i2_unused") {
+		t.Fatalf("want exactly the unused import reported, got %v", errs)
+	}
+	src = PruneImports(src)
+	if strings.Contains(src, "i2_unused") || !strings.Contains(src, "i1_pkg") || !strings.Contains(src, "i0_ctx") {
+		t.Fatalf("pruning removed the wrong imports:\n%s", src)
+	}
 	if errs := TypeErrors(src, importer.Default(), allow); len(errs) != 0 {
 		t.Fatalf("valid file reported: %v", errs)
 	}
